@@ -323,3 +323,122 @@ def predicate_walk(body, start, valuation, classify, max_steps=4000):
             seen.add((n, bb))
             stack.append((n, path + (n,)))
     return outcomes
+
+
+def const_eval(t):
+    """integer value of a constant expression term (literals combined by arithmetic), else None"""
+    if not isinstance(t, tuple) or not t:
+        return None
+    k = t[0]
+    if k == "const":
+        return t[2]
+    if k == "cast":
+        return const_eval(t[1])
+    if k == "fld" and t[3] == "0" and t[1][0] == "bin" and t[1][1].endswith("WithOverflow"):
+        return const_eval(("bin", t[1][1].replace("WithOverflow", ""), t[1][2], t[1][3]))
+    if k == "bin":
+        a, b = const_eval(t[2]), const_eval(t[3])
+        if a is None or b is None:
+            return None
+        op = t[1].replace("WithOverflow", "")
+        try:
+            return {"Add": a + b, "Sub": a - b, "Mul": a * b, "Shl": a << b, "Shr": a >> b, "BitOr": a | b, "BitAnd": a & b,
+                    "BitXor": a ^ b, "Div": a // b if b else None, "Rem": a % b if b else None}.get(op)
+        except Exception:
+            return None
+    if k == "un" and t[1] == "Not":
+        return None
+    return None
+
+
+def bool_fn_table(body, max_atoms=8):
+    """Exact truth table of a small boolean function (&&/||/! over calls on its arguments):
+    returns (atoms, {valuation tuple: result}) where atoms are the shown call terms whose result the
+    function branches on or returns; result is True/False or None when it cannot be evaluated."""
+    prov = Prov(body)
+    atoms = []
+
+    def note(t):
+        if t[0] == "call" and not re.search(r"ops::Not>::not$", t[1]):
+            s = show(t, -9)
+            if s not in atoms:
+                atoms.append(s)
+        elif t[0] == "un" and t[1] == "Not":
+            note(t[2])
+        elif t[0] == "call":
+            for a in t[2]:
+                note(a)
+        elif t[0] == "bin":
+            note(t[2])
+            note(t[3])
+        elif t[0] in ("fld", "arg", "discr"):
+            s = show(t, -9)
+            if s not in atoms:
+                atoms.append(s)
+
+    for bi in sorted(body.reachable()):
+        t = body.term(bi)
+        if t["k"] == "switch":
+            note(prov.operand(t["d"]))
+        if t["k"] == "call" and t.get("dest") and t["dest"]["l"] == 0 and not t["dest"]["p"]:
+            note(prov._call(t, True))
+        for s in body.stmts(bi):
+            if s["k"] == "assign" and s["pl"]["l"] == 0 and not s["pl"]["p"]:
+                note(prov._rvalue(s["rv"], True))
+    atoms = [a for a in atoms if a not in ("0", "1")]
+    if len(atoms) > max_atoms:
+        return atoms, None
+
+    def ev(t, val):
+        if t[0] == "const":
+            return bool(t[2])
+        if t[0] == "un" and t[1] == "Not":
+            x = ev(t[2], val)
+            return None if x is None else (not x)
+        if t[0] == "call" and re.search(r"ops::Not>::not$", t[1]):
+            x = ev(t[2][0], val)
+            return None if x is None else (not x)
+        if t[0] == "bin" and t[1] in ("BitAnd", "BitOr", "Eq", "Ne", "BitXor"):
+            a, b = ev(t[2], val), ev(t[3], val)
+            if a is None or b is None:
+                return None
+            return {"BitAnd": a and b, "BitOr": a or b, "Eq": a == b, "Ne": a != b, "BitXor": a != b}[t[1]]
+        s = show(t, -9)
+        return val.get(s)
+
+    table = {}
+    import itertools
+    for bits in itertools.product([False, True], repeat=len(atoms)):
+        val = dict(zip(atoms, bits))
+        cur, res, steps = 0, None, 0
+        while steps < 500:
+            steps += 1
+            for s in body.stmts(cur):
+                if s["k"] == "assign" and s["pl"]["l"] == 0 and not s["pl"]["p"]:
+                    res = ev(prov._rvalue(s["rv"], True), val)
+            t = body.term(cur)
+            k = t["k"]
+            if k == "return":
+                break
+            if k == "call":
+                if t.get("dest") and t["dest"]["l"] == 0 and not t["dest"]["p"]:
+                    res = ev(prov._call(t, True), val)
+                if t.get("t") is None:
+                    res = None
+                    break
+                cur = t["t"]
+            elif k == "switch":
+                x = ev(prov.operand(t["d"]), val)
+                if x is None:
+                    res = None
+                    break
+                tm = {int(a): b for a, b in t["ts"]}
+                cur = tm.get(1 if x else 0, t["o"])
+            else:
+                ss = body.succ(cur)
+                if len(ss) != 1:
+                    res = None
+                    break
+                cur = ss[0]
+        table[bits] = res
+    return atoms, table
